@@ -16,12 +16,12 @@ def trIn (c : Case) : TRIn :=
   let args := udCheckArgs (c.int "sizetotal") (c.int "sizeup") (c.int "sizedown") (c.int "sizeside") (c.int "sizesame")
       (c.int "distall") (c.int "distup") (c.int "distdown") (c.int "distside") (c.int "distpush")
   { ref := c.bytes "ref",
-    qs := (c.list "qnames").zip ((c.list "qseqs").map strBytes),
-    ts := (c.list "tnames").zip ((c.list "tseqs").map strBytes),
+    qs := (c.names "qnames").zip ((c.list "qseqs").map strBytes),
+    ts := (c.names "tnames").zip ((c.list "tseqs").map strBytes),
     table := c.bool "table", args := args,
     opts := { sizes := (args.map (·.1)).getD [], dists := (args.map (·.2)).getD [], nofill := c.bool "nofill",
               thrNum := c.nat "thrn", thrDen := (if c.nat "thrd" == 0 then 1 else c.nat "thrd"),
-              threshTarg := c.nat "threshtarg", push := (c.int "distpush").toNat, ignore := c.list "ignore" } }
+              threshTarg := c.nat "threshtarg", push := (c.int "distpush").toNat, ignore := c.names "ignore" } }
 
 def modelTR (ti : TRIn) : String :=
   match ti.args with
